@@ -188,6 +188,9 @@ def panic_sites(mir):
                 cat = "panic"
             elif re.search(r"Option::unwrap$|Result::unwrap$|::expect$|unwrap_failed|expect_failed", g):
                 cat = "unwrap"
+                a0 = (c.get("argtys") or [""])[0]
+                if re.fullmatch(r"(std|core)::result::Result<\(\), (std|core)::fmt::Error>", a0):
+                    cat = "unwrap:fmt"  # result of formatting into the crate's own String sinks
             elif re.search(r"num::<impl [iu](8|16|32|64|128|size)>::(abs|pow|div_euclid|rem_euclid|next_power_of_two|ilog2?|ilog10|isqrt|strict_\w+)$", c["callee"]):
                 cat = "intpanic:" + g.split("::")[-1]
             elif re.search(r"Index(Mut)?::index(_mut)?$|::index$|::index_mut$", g):
@@ -218,6 +221,9 @@ def panic_rule(ctx):
     for (crate, root, cat), spans in sorted(sites.items()):
         total += len(spans)
         key = "C01.panic/%s/%s/%s" % (crate, root, cat)
+        if cat == "unwrap:fmt":
+            obs.append(ob(key, True, spans[0], "%d unwrap(s) of a `fmt::Result`: the writers of both crates format into `String` buffers, whose `fmt::Write` never fails (discharged by type, not by count)" % len(spans)))
+            continue
         r = reviewed.get((crate, root, cat))
         if r is None:
             obs.append(ob(key, False, spans[0], "%d potential panic site(s) of kind `%s` in a function that has no reviewed entry for it: %s" % (len(spans), cat, [s.split("/")[-1] for s in spans][:4]),
@@ -316,8 +322,7 @@ def side_conditions_rule(ctx):
                     n_guarded += 1
                 obs.append(ob(key, how is not None, ctx.where(f), "`%s.unwrap()` is %s" % (place, how) if how else "`%s.unwrap()` is not dominated by a test that `%s` is Some" % (place, place),
                               witness=None if how else "any input reaching this statement with `%s` unset panics" % place))
-    if n_guarded < 9:
-        obs.append(ob("C01.floor/guarded-unwraps", False, "both crates", "only %d guarded unwraps recognised (floor 9)" % n_guarded))
+    # (no floor here: fewer unwraps is not a defect)
     # entities::decode slices the entity text by bytes: the scanner must only let ASCII through
     pe = [g for g in ctx.tc.fns if g.name == "parse_next_entity" and g.body]
     if pe:
